@@ -140,6 +140,23 @@ CHECKS = {
             'transport errors reported under racing user calls are legitimate;'
             ' watchdog firing = inconclusive.',
             'DESIGN.md §3 C16'),
+    'C12': ('exploration',
+            'schedule control of real threads (serialising baton scheduler over'
+            ' lock/socket/queue/select proxies; exhaustive up to a pre-emption '
+            'bound + random walks) and free-running stress with yield '
+            'injection; history checker over the server byte stream and the '
+            'client-boundary call log',
+            'Real Connection in play state (plain / compressed / encrypted+'
+            'compressed), 1-4 user threads with queued and forced writes and a '
+            'final flushing or immediate disconnect: stream well-formed, every '
+            'frame one of the unique payloads, none twice, per-thread queue '
+            'order, no loss of writes returned before a flushing disconnect, '
+            'nothing sent by/after an immediate disconnect, socket closed; '
+            'deadlock = violation. Evidence lists distinct schedules and wire '
+            'orders.',
+            'operations overlapping the disconnect are at-most-once; forced '
+            'writes only in play state; watchdog firing = inconclusive.',
+            'DESIGN.md §3 C12'),
     'C02': ('exploration',
             'runtime monitor: recording sink + counting stream + step budget '
             'around the real codecs; independent wire-type oracle; prefix rule',
